@@ -211,6 +211,10 @@ class SchedStream(C.Stream):
             return "model error: " + ans["error"]
         if not ans["wf"]:
             return "model: generated graph not well-formed (generator bug)"
+        if obs["outcome"] == "hang":
+            # the run never terminated: the oracle reports it (the model has no transition that loses a task, so the
+            # trace cannot be accepted beyond the point where the task was lost)
+            return None
         if ans["reject"] is not None:
             return f"trace rejected at label {ans['accepted']}: {ans['reject']}"
         if obs["outcome"] != "hang" and not ans["final"]:
